@@ -73,6 +73,24 @@ Theorem C01_client_any_fragmentation : forall (C : callees) (wire : bytes) (ms :
 Proof. exact client_any_fragmentation. Qed.
 Print Assumptions C01_client_any_fragmentation.
 
+(* THE SERVER MACHINE AS IMPLEMENTED.  Its second shortcut, the 411 peek, fires only for a message whose header section has
+   neither Content-Length nor (under HTTP/1.1) Transfer-Encoding.  If the header hook of the run accepts framed header
+   sections only ([framed_h]; for the recorded table of a concrete run this is a finite check, and it is the policy of
+   a server that answers 411 to unframed requests), the same conclusion holds for the server, on every fragmentation. *)
+Theorem C01_server_quiet : forall (C : callees) (wire : bytes) (ms : list msg) (frags : list bytes),
+  (forall p h, c_hdrs C p h = HOk -> framed_h p h = true) ->
+  parse reference C Server init wire = (init, ms, None) -> Forall (fun m => no_lf (m_line m) = true) ms ->
+  concat_bytes frags = wire -> quiet_run C Server init frags = true.
+Proof. exact server_quiet. Qed.
+Print Assumptions C01_server_quiet.
+
+Theorem C01_server_any_fragmentation : forall (C : callees) (wire : bytes) (ms : list msg) (frags : list bytes),
+  (forall p h, c_hdrs C p h = HOk -> framed_h p h = true) ->
+  parse reference C Server init wire = (init, ms, None) -> Forall (fun m => no_lf (m_line m) = true) ms ->
+  concat_bytes frags = wire -> run_keep real C Server init frags = (init, ms, None).
+Proof. exact server_any_fragmentation. Qed.
+Print Assumptions C01_server_any_fragmentation.
+
 (* the form in which the other properties use it: whatever ONE call on the whole stream delivers while ending idle, every
    fragmentation delivers - on the reference machine always, on the machine as implemented on every quiet run *)
 Theorem C01_whole_call_any_fragmentation : forall (C : callees) (k : kind) (wire : bytes) (ms : list msg) (frags : list bytes),
@@ -120,3 +138,30 @@ Example C01_hypotheses_satisfiable :
   quiet_run (callees_of T) Server init [S_OK] = true /\ quiet_run (callees_of T) Server init [firstn 70 S_OK; skipn 70 S_OK] = true /\
   res (run_keep real (callees_of T) Server init [firstn 70 S_OK; skipn 70 S_OK]) = (2%nat, None).
 Proof. vm_compute. auto. Qed.
+
+(* non-vacuity of the server statement: a hook that answers 411 to every unframed header section, and a pipelined chunked POST +
+   Content-Length POST; the conclusion for the per-octet feeding follows from the theorem, not from evaluation *)
+Definition C_strict : callees := {|
+  c_start := c_start (callees_of T);
+  c_hdrs := fun p h => if framed_h p h then HOk else HErr 411;
+  c_decode := c_decode (callees_of T); c_2047 := c_2047 (callees_of T); c_trailer := c_trailer (callees_of T);
+  c_connect := fun _ => false |}.
+Definition S_2P := X "504f5354202f20485454502f312e310d0a486f73743a20780d0a5472616e736665722d456e636f64696e673a206368756e6b65640d0a0d0a330d0a6162630d0a300d0a0d0a504f5354202f20485454502f312e310d0a486f73743a20780d0a436f6e74656e742d4c656e6774683a20320d0a0d0a6162".
+Example C01_server_example :
+  (forall p h, c_hdrs C_strict p h = HOk -> framed_h p h = true) /\
+  (exists ms, parse reference C_strict Server init S_2P = (init, ms, None) /\ length ms = 2%nat /\
+     run_keep real C_strict Server init (per_octet S_2P) = (init, ms, None)).
+Proof.
+  assert (Hfr : forall p h, c_hdrs C_strict p h = HOk -> framed_h p h = true).
+  { intros p h. cbn [c_hdrs C_strict]. destruct (framed_h p h); [reflexivity | discriminate]. }
+  split; [exact Hfr|].
+  assert (PE : exists ms, parse reference C_strict Server init S_2P = (init, ms, None)) by (eexists; vm_compute; reflexivity).
+  destruct PE as [ms P].
+  assert (Q : match parse reference C_strict Server init S_2P with (_, m, _) => length m = 2%nat /\ forallb (fun x => no_lf (m_line x)) m = true end)
+    by (vm_compute; split; reflexivity).
+  rewrite P in Q. destruct Q as [Q2 Q3]. exists ms. split; [exact P|]. split; [exact Q2|].
+  apply (C01_server_any_fragmentation C_strict S_2P ms (per_octet S_2P) Hfr P).
+  - apply Forall_forall. intros m Hm. rewrite forallb_forall in Q3. exact (Q3 m Hm).
+  - unfold per_octet. clear. induction S_2P as [|c l IH]; [reflexivity|]. cbn [map concat_bytes app]. rewrite IH. reflexivity.
+Qed.
+
